@@ -110,7 +110,9 @@ func runSched(name string) *result {
 	case "window-lost":
 		wd := newWorld(1, false)
 		defer unpark(wd.pool)
+		obs := observePop(any(wd.pool.Queue))
 		wd.start(bound)
+		obs.settled(1)
 		p := parkSubmit(wd.pool)
 		subDone := make(chan struct{})
 		go func() { wd.submit(body{}); close(subDone) }()
@@ -130,10 +132,12 @@ func runSched(name string) *result {
 	case "window-hang":
 		for attempt, pause := range []time.Duration{300 * time.Millisecond, time.Second, 3 * time.Second} {
 			wd := newWorld(1, false)
+			obs := observePop(any(wd.pool.Queue))
 			wd.start(bound)
 			gate := make(chan struct{})
 			wd.submit(body{gate: gate})
 			waitFor(bound, func() bool { return wd.runs[0].Load() == 1 })
+			obs.settled(1) // the dispatcher is back in PopOrWait on the empty queue (it passed the gap at least once)
 			p := parkSubmit(wd.pool)
 			subDone := make(chan struct{})
 			go func() { wd.submit(body{}); close(subDone) }()
@@ -173,10 +177,17 @@ func runSched(name string) *result {
 		}
 	case "restart":
 		wd := newWorld(1, false)
-		ok := wd.start(bound) && wd.shutdown(bound) && wd.start(bound)
+		defer unpark(wd.pool)
+		obs := observePop(any(wd.pool.Queue))
+		ok := wd.start(bound)
+		obs.settled(1)
+		ok = ok && wd.shutdown(bound) && wd.start(bound) // Shutdown(); Start() back to back
 		if ok {
+			n := obs.hits.Load()
 			wd.submit(body{})
-			ok = wd.waitZero(bound) && wd.shutdown(bound)
+			ok = wd.waitZero(bound)
+			obs.settled(n + 1)
+			ok = ok && wd.shutdown(bound)
 		}
 		complete := ok && wd.waitComplete(bound)
 		zero := ok && wd.waitZero(shortBound)
